@@ -1,2 +1,54 @@
-(* statements land with the deep pass; see Proofs *)
-Require Import Model.Base.
+(* C16 — vertical scroll set-up always spans the framebuffer height and never panics. Statements only;
+   proofs in Proofs/ScrollP.v. Model of the tree after the fix: commit for F3 (sum formed in u32). *)
+Require Import Model.Base Model.Orient Model.Dcs Model.Events Model.Builder Model.Rect Model.Batch Model.Display.
+Require Import Oracle.Controller Proofs.ScrollP.
+
+(* for every pair of fixed-area heights in u16 x u16, every framebuffer height 1..65535, every build
+   profile (c_md inside c), every driver state (so every orientation, size, offset): the call returns Ok,
+   emits exactly one command 0x33 with three big-endian 16-bit parameters, and leaves the state alone *)
+Theorem C16_region : forall c st top bottom,
+  0 <= top <= 65535 -> 0 <= bottom <= 65535 -> 1 <= c_fh c <= 65535 ->
+  step c st (PScrollRegion top bottom) =
+  (let '(t, s, b) := scroll_areas (c_fh c) top bottom in [ECmd 0x33 (be16 t ++ be16 s ++ be16 b)], ROk, st).
+Proof. exact step_scroll_region. Qed.
+
+(* the three areas add up to the framebuffer height, each fits 16 bits (nothing wrapped), top and
+   bottom are passed through unchanged whenever their sum fits, otherwise everything is fixed area *)
+Theorem C16_areas : forall fh top bottom,
+  0 <= top <= 65535 -> 0 <= bottom <= 65535 -> 1 <= fh <= 65535 ->
+  let '(t, s, b) := scroll_areas fh top bottom in
+  t + s + b = fh /\ 0 <= t <= 65535 /\ 0 <= s <= 65535 /\ 0 <= b <= 65535 /\
+  (top + bottom <= fh -> t = top /\ b = bottom) /\
+  (top + bottom > fh -> (t, s, b) = (fh, 0, 0)).
+Proof. exact scroll_areas_sum. Qed.
+
+(* debug and release builds behave identically: no overflow panic, no wrapped value *)
+Theorem C16_no_panic : forall fw fh top bottom b e rc bc,
+  0 <= top <= 65535 -> 0 <= bottom <= 65535 -> 1 <= fh <= 65535 ->
+  set_vertical_scroll_region {| c_md := Debug; c_batch := b; c_fw := fw; c_fh := fh; c_enc := e; c_rowcap := rc; c_blockcap := bc |} top bottom
+  = set_vertical_scroll_region {| c_md := Release; c_batch := b; c_fw := fw; c_fh := fh; c_enc := e; c_rowcap := rc; c_blockcap := bc |} top bottom.
+Proof. exact scroll_region_mode_indep. Qed.
+
+(* set_vertical_scroll_offset: the offset unchanged, big-endian *)
+Theorem C16_offset : forall c st v,
+  step c st (PScrollOffset v) = ([ECmd 0x37 [v / 256; v mod 256]], ROk, st).
+Proof. exact step_scroll_offset. Qed.
+
+(* what the reference controller decodes from these commands *)
+Theorem C16_controller_region : forall k t s b,
+  k_page k = false -> 0 <= t <= 65535 -> 0 <= s <= 65535 -> 0 <= b <= 65535 ->
+  let k' := ctl_run k [ECmd 0x33 (be16 t ++ be16 s ++ be16 b)] in
+  k_vscr k' = Some (t, s, b) /\ k_flags k' = k_flags k /\ k_wrev k' = k_wrev k /\ k_madctl k' = k_madctl k /\
+  k_asleep k' = k_asleep k.
+Proof. exact ctl_scroll_region. Qed.
+Theorem C16_controller_offset : forall k v,
+  k_page k = false -> 0 <= v <= 65535 ->
+  let k' := ctl_run k [ECmd 0x37 [v / 256; v mod 256]] in
+  k_vstart k' = Some v /\ k_flags k' = k_flags k /\ k_wrev k' = k_wrev k.
+Proof. exact ctl_scroll_offset. Qed.
+
+(* non-vacuity and the recorded finding F3: (65375, 161) on a 160-row framebuffer overflowed u16 on
+   the pinned tree; the repaired arithmetic yields the all-fixed fallback *)
+Example C16_ex : scroll_areas 160 65375 161 = (160, 0, 0) /\ scroll_areas 320 20 40 = (20, 260, 40)
+  /\ scroll_areas 65535 65535 0 = (65535, 0, 0) /\ scroll_areas 1 0 1 = (0, 0, 1).
+Proof. vm_compute. auto. Qed.
